@@ -171,8 +171,7 @@ class BootstrapArguments(Contract):
         self.a = {"all_data": Abstract("all_data"), "annotated_funcs": Abstract("funcs"), "random_state": Abstract("rs")}
         st.env.update(self.a)
         st.env.update({"self": Obj("MetricFrame", {"_sf_names": Abstract("sfn"), "_cf_names": Abstract("cfn")}), "n_boot": self.nb, "ci_quantiles": self.ci})
-        self.gen = None
-        self.pop = None
+        st.ghost["callers_quantiles"] = self.ci          # ghost alias of the caller's list (cloned together with the environment)
 
     def on_call(self, eng, st, node, name, recv, args, kwargs):
         if name == "generate_bootstrap_samples":
@@ -183,6 +182,8 @@ class BootstrapArguments(Contract):
             return None
         if name == "str":
             return "x"
+        if name in ("set", "sorted", "reversed", "frozenset") and args and (args[0] is st.ghost.get("callers_quantiles") or isinstance(args[0], Abstract) and args[0].tag == "rearranged_quantiles"):
+            return Abstract("rearranged_quantiles", how=name)          # another order and/or length than the caller's list
         return NotImplemented
 
     def post(self, eng, st, status, value):
@@ -203,7 +204,8 @@ class BootstrapArguments(Contract):
                      BoolVal(g is not None and g.get("n_samples") is self.nb and g.get("random_state") is self.a["random_state"] and g.get("data") is self.a["all_data"]
                              and g.get("annotated_functions") is self.a["annotated_funcs"] and g.get("sensitive_feature_names") is st.env["self"].fields["_sf_names"]
                              and g.get("control_feature_names") is st.env["self"].fields["_cf_names"])),
-                    ("intervals_computed_from_those_samples_at_the_requested_quantiles", BoolVal(p is not None and len(p) == 2 and isinstance(p[0], Abstract) and p[0].tag == "samples" and p[1] is st.env["ci_quantiles"]))]
+                    ("intervals_computed_from_those_samples_at_the_requested_quantiles", BoolVal(p is not None and len(p) == 2 and isinstance(p[0], Abstract) and p[0].tag == "samples" and p[1] is st.ghost["callers_quantiles"])),
+                    ("reported_quantile_list_is_the_callers_list_in_the_callers_order", BoolVal(st.env["self"].fields.get("_ci_quantiles") is st.ghost["callers_quantiles"]))]
         else:
             out.append(("no_resampling_without_bootstrap_arguments", BoolVal(g is None)))
         return out
